@@ -210,8 +210,195 @@ class MergeBatch(Contract):
         return [('buffer_ok preserved: ' + nm, f) for nm, f in out]
 
 
+
+# ---------------------------------------------------------------- the small state functions
+class InitSamplesLazy(Contract):
+    """establishes buffer_ok for the empty history: every row a placeholder with discrepancy +inf
+    (three requested outputs: the discrepancy, a scalar output, a vector-valued output of symbolic width)"""
+    target = 'elfi/methods/inference/samplers.py::Rejection._init_samples_lazy'
+    prop = 'C01'
+    fin = 4
+    fin_range = 8
+
+    def setup(self, vc):
+        n, b, w = z3.Ints('n_samples batch_size width')
+        vc.fin_bounds.extend([n, b, w])
+        kd, k1, k2 = SKey(DKEY), SKey(K1), SKey(K2)
+        batch = {kd: SArr.fresh('bd', (b,), 'real'), k1: SArr.fresh('b1', (b,), 'real'), k2: SArr.fresh('b2', (b, w), 'real')}
+        s = NS(n=n, b=b, w=w, keys=(kd, k1, k2), batch=batch)
+        s.self = make_object('RejectionStub', attrs=dict(output_names=[kd, k1, k2], batch_size=SInt(b), discrepancy_name=kd,
+                                                         objective={'n_samples': SInt(n)}, state={'samples': None}))
+        return s, (s.self, batch), {}
+
+    def env(self, vc):
+        return dict(is_array=inline(vc, 'elfi/utils.py::is_array'))
+
+    def requires(self, s):
+        return [s.n >= 1, s.b >= 1, s.w >= 1]
+
+    def ensures(self, s, result):
+        smp = s.self.state['samples']
+        kd, k1, k2 = s.keys
+        L = s.n + s.b
+        ok_keys = isinstance(smp, dict) and set(map(id, smp.keys())) == {id(kd), id(k1), id(k2)}
+        if not ok_keys:
+            return [('samples has exactly the requested outputs as keys', z3.BoolVal(False))]
+        return [('every column has n_samples + batch_size rows (and the row shape of its batch)',
+                 z3.And(smp[kd].shape[0] == L, smp[k1].shape[0] == L, smp[k2].shape[0] == L, z3.BoolVal(smp[k2].ndim == 2), smp[k2].shape[1] == s.w)),
+                ('every discrepancy starts at +inf (placeholder rows: buffer_ok of the empty history)', forall_range(0, L, lambda i: smp[kd].at(i) == INF, 'i'))]
+
+
+class BaseUpdate(Contract):
+    target = 'elfi/methods/inference/parameter_inference.py::ParameterInference.update'
+    prop = 'C01'
+    fin = 4
+
+    def setup(self, vc):
+        nb, ns, b = z3.Ints('n_batches n_sim batch_size')
+        vc.fin_bounds.extend([nb, ns, b])
+        s = NS(nb=nb, ns=ns, b=b)
+        s.self = make_object('PIStub', attrs=dict(state={'n_batches': SInt(nb), 'n_sim': SInt(ns)}, batch_size=SInt(b)))
+        return s, (s.self, None, SInt(nb)), {}
+
+    def requires(self, s):
+        return [s.nb >= 0, s.b >= 1, s.ns == s.b * s.nb]
+
+    def ensures(self, s, result):
+        st = s.self.state
+        return [('one more consumed batch', T(st['n_batches']) == s.nb + 1),
+                ('n_sim = batch_size * consumed batches', T(st['n_sim']) == s.b * (s.nb + 1)),
+                ('nothing else in the state changes', z3.BoolVal(set(st.keys()) == {'n_batches', 'n_sim'}))]
+
+
+class UpdateStateMeta(Contract):
+    target = 'elfi/methods/inference/samplers.py::Rejection._update_state_meta'
+    prop = 'C01'
+    fin = 3
+    fin_range = 7
+
+    def setup(self, vc):
+        vc.axioms = key_axioms(vc)
+        n, b, ns = z3.Ints('n_samples batch_size n_sim')
+        vc.fin_bounds.extend([n, b, ns])
+        samples = SDictArr('samples', n + b, dom=lambda k: DOM(k))
+        s = NS(n=n, b=b, ns=ns, samples=samples)
+        s.self = make_object('RejectionStub', attrs=dict(state={'samples': samples, 'n_sim': SInt(ns), 'threshold': SReal(INF), 'accept_rate': 1},
+                                                         objective={'n_samples': SInt(n)}, discrepancy_name=SKey(DKEY)))
+        return s, (s.self,), {}
+
+    def requires(self, s):
+        return [s.n >= 1, s.b >= 1, s.ns >= 1,
+                forall2_range(0, s.n + s.b, lambda i, j: z3.Implies(i <= j, s.samples.at(DKEY, i) <= s.samples.at(DKEY, j)))]
+
+    def snapshot(self, s):
+        return dict(samples=s.samples.snapshot())
+
+    def ensures(self, s, result):
+        st = s.self.state
+        thr = T(st['threshold'])
+        return [('reported threshold = the n_samples-th held discrepancy', thr == s.samples.at(DKEY, s.n - 1)),
+                ('... which is the largest returned discrepancy', forall_range(0, s.n, lambda i: s.samples.at(DKEY, i) <= thr, 'i')),
+                ('the samples are not touched', fa_key(lambda key: forall_range(0, s.n + s.b, lambda i: s.samples.at(key, i) == s.old.samples.at(key, i), 'i')))]
+
+
+class ExtractResult(Contract):
+    """whole-view post: every output is the first n_samples rows of its column"""
+    target = 'elfi/methods/inference/samplers.py::Rejection.extract_result'
+    prop = 'C01'
+    fin = 3
+    fin_range = 7
+
+    def setup(self, vc):
+        vc.axioms = key_axioms(vc)
+        n, b = z3.Ints('n_samples batch_size')
+        vc.fin_bounds.extend([n, b])
+        samples = SDictArr('samples', n + b, dom=lambda k: DOM(k))
+        s = NS(n=n, b=b, samples=samples, made=[])
+
+        def extract_kwargs(self_):
+            return dict(method_name='Rejection')
+        s.self = make_object('RejectionStub', attrs=dict(state={'samples': samples}, objective={'n_samples': SInt(n)}, adaptive=False),
+                             methods=dict(_extract_result_kwargs=extract_kwargs))
+        self._s = s
+        return s, (s.self,), {}
+
+    def env(self, vc):
+        s = self._s
+
+        def Sample(outputs=None, **kw):
+            s.made.append((outputs, kw))
+            return ('Sample', outputs)
+        return dict(Sample=Sample, dict=lambda: OutDict(s))
+
+    def requires(self, s):
+        self._s = s
+        return [s.n >= 1, s.b >= 1]
+
+    def _inv(self, s, l):
+        outs = l.outputs
+        if not isinstance(outs, OutDict):
+            return [('outputs is the result dict', z3.BoolVal(False))]
+        return [('visited outputs hold the first n_samples rows of their column', outs.inv(l.it.visited))]
+
+    @property
+    def loops(self):
+        return {0: Loop(inv=self._inv, modifies=lambda s, l: [l.outputs])}
+
+    def ensures(self, s, result):
+        if len(s.made) != 1 or not isinstance(s.made[0][0], OutDict):
+            return [('exactly one Sample is built from the outputs dict', z3.BoolVal(False))]
+        outs = s.made[0][0]
+        return [('every requested output is returned as rows [0, n_samples) of its column',
+                 fa_key(lambda key: z3.Implies(DOM(key), z3.And(outs.has(key), outs.length(key) == s.n,
+                                                                forall_range(0, s.n, lambda i: outs.at(key, i) == s.samples.at(key, i), 'i')))))]
+
+
+class OutDict(Sym):
+    """the python dict `outputs` built in extract_result: key -> 1-D array (views of the columns)"""
+
+    def __init__(self, s):
+        vc = cur()
+        self.s = s
+        self._has = lambda k: z3.BoolVal(False)
+        self._len = lambda k: z3.IntVal(0)
+        self._elt = lambda k, i: z3.RealVal(0)
+        self.t = None
+
+    def __setitem__(self, key, value):
+        k = key.t
+        v = value.snapshot()
+        if v.ndim != 1:
+            raise OutOfSubset('non 1-d output')
+        h, ln, el = self._has, self._len, self._elt
+        self._has = lambda q: z3.Or(h(q), q == k)
+        self._len = lambda q: z3.If(q == k, v.shape[0], ln(q))
+        self._elt = lambda q, i: z3.If(q == k, v.at(i), el(q, i))
+
+    def has(self, k):
+        return self._has(k)
+
+    def length(self, k):
+        return self._len(k)
+
+    def at(self, k, i):
+        return self._elt(k, i)
+
+    def _vc_havoc(self, name):
+        vc = cur()
+        h = vc.fresh_fn('out_has', Key, B)
+        ln = vc.fresh_fn('out_len', Key, I)
+        el = vc.fresh_fn('out_elt', Key, I, R)
+        self._has, self._len, self._elt = (lambda q: h(q)), (lambda q: ln(q)), (lambda q, i: el(q, i))
+
+    def inv(self, visited):
+        s = self.s
+        return fa_key(lambda key: z3.And(self.has(key) == visited(key),
+                                         z3.Implies(visited(key), z3.And(self.length(key) == s.n, forall_range(0, s.n, lambda i: self.at(key, i) == s.samples.at(key, i), 'i')))))
+
+
 CONTRACTS = [SetObjective('threshold'), SetObjective('quantile'), SetObjective('n_sim'), SetObjective('default'),
-             MergeBatch(False), MergeBatch(True)]
+             MergeBatch(False), MergeBatch(True),
+             InitSamplesLazy(), BaseUpdate(), UpdateStateMeta(), ExtractResult()]
 TRUSTED_BASE = []
 ASSUMPTIONS = []
 NOT_PROVED = []
